@@ -44,6 +44,7 @@ func init() {
 	})
 	mon.Subcommands["c14child"] = child
 	mon.Subcommands["c14ref"] = ref
+	mon.Subcommands["c14seq"] = seqChild
 }
 
 // the call vocabulary -------------------------------------------------------
@@ -312,6 +313,83 @@ func child(args []string) {
 	os.WriteFile(outFile, b, 0o644)
 }
 
+// seqChild: one long sequential history of generated calls, executed in a
+// given order; the same multiset of calls in another order (another process)
+// must give the same result for every call.
+func seqCalls(seed int64, n int) (srcs []string, opt []int) {
+	rng := gen.RNG(seed, "c14seq")
+	vg := &gen.Valid{Rng: rng}
+	seeds := gen.Seeds()
+	corpus := gen.NewCorpus(seeds, 1)
+	for i := 0; i < n; i++ {
+		var s string
+		switch i % 5 {
+		case 0, 1:
+			s = pqlref.Print(vg.Program(), pqlref.Layout{Mode: i % 2}).Src
+		case 2:
+			s = corpus.Mutant(rng)
+		case 3:
+			s = sources[rng.Intn(len(sources))]
+		default:
+			// an earlier call again (repeats are where caches live), sometimes with different leading white space
+			if len(srcs) > 0 {
+				s = srcs[rng.Intn(len(srcs))]
+				if rng.Intn(3) == 0 {
+					s = []string{" ", "\n", "\t  "}[rng.Intn(3)] + s
+				}
+			} else {
+				s = "T"
+			}
+		}
+		srcs = append(srcs, s)
+		opt = append(opt, rng.Intn(4))
+	}
+	return
+}
+
+func seqChild(args []string) {
+	seed, _ := strconv.ParseInt(args[0], 10, 64)
+	n, _ := strconv.Atoi(args[1])
+	order := args[2] // forward | reverse | shuffle
+	outFile := args[3]
+	srcs, opt := seqCalls(seed, n)
+	idx := make([]int, n)
+	for i := range idx {
+		idx[i] = i
+	}
+	switch order {
+	case "reverse":
+		for i, j := 0, n-1; i < j; i, j = i+1, j-1 {
+			idx[i], idx[j] = idx[j], idx[i]
+		}
+	case "shuffle":
+		gen.RNG(seed, "order").Shuffle(n, func(i, j int) { idx[i], idx[j] = idx[j], idx[i] })
+	}
+	opts := optionSet()
+	snapshot := map[string]string{}
+	for k, v := range opts[3].Parameters {
+		snapshot[k] = v
+	}
+	res := make([]string, n)
+	for _, i := range idx {
+		func() {
+			defer func() {
+				if p := recover(); p != nil {
+					res[i] = fmt.Sprintf("PANIC %v", p)
+				}
+			}()
+			sql, err := opts[opt[i]].Compile(srcs[i])
+			st, perr := parser.Parse(srcs[i])
+			res[i] = hashOf(fmt.Sprintf("sql=%q err=%v tree=%s perr=%v toks=%v", sql, err, pqlref.Dump(st, 0, true), perr, parser.Scan(srcs[i])))
+		}()
+	}
+	if !reflect.DeepEqual(snapshot, opts[3].Parameters) {
+		res = append(res, "PARAMS-MODIFIED")
+	}
+	b, _ := json.Marshal(res)
+	os.WriteFile(outFile, b, 0o644)
+}
+
 // coordinator -----------------------------------------------------------------
 
 var raceBlock = regexp.MustCompile(`(?s)WARNING: DATA RACE.*?==================`)
@@ -495,6 +573,67 @@ func runWith(c *mon.Custom, replayCase json.RawMessage) {
 		}(j)
 	}
 	wg.Wait()
+	// 3. order independence of long sequential histories (plain build)
+	if replayCase == nil {
+		nSeq := 3
+		nCalls := 1500
+		if !c.Quick() {
+			nSeq, nCalls = 40, 4000
+		}
+		seqSeeds := make([]int64, nSeq)
+		for k := range seqSeeds {
+			seqSeeds[k] = rng.Int63()
+		}
+		for k := 0; k < nSeq; k++ {
+			wg.Add(1)
+			go func(k int) {
+				defer wg.Done()
+				par <- struct{}{}
+				defer func() { <-par }()
+				sseed := seqSeeds[k]
+				var results [3][]string
+				for oi, order := range []string{"forward", "reverse", "shuffle"} {
+					out := filepath.Join(c.Dir, fmt.Sprintf("seq%d.%s.json", k, order))
+					cmd := exec.Command("timeout", "-s", "KILL", "600", plain, "c14seq", fmt.Sprint(sseed), fmt.Sprint(nCalls), order, out)
+					if err := cmd.Run(); err != nil {
+						c.Inconclusive("sequential_history_process_failed")
+						return
+					}
+					b, _ := os.ReadFile(out)
+					json.Unmarshal(b, &results[oi])
+				}
+				srcs, opt := seqCalls(sseed, nCalls)
+				for oi := 1; oi < 3; oi++ {
+					if len(results[oi]) != len(results[0]) {
+						c.Violation(fmt.Sprintf("seq-params|%d", k), "", "a sequential history modified the shared parameter map in one order but not in another", map[string]any{"seed": sseed})
+						return
+					}
+					for i := range results[0] {
+						if results[0][i] != results[oi][i] {
+							src := "(parameter map check)"
+							if i < len(srcs) {
+								src = srcs[i]
+							}
+							o := 0
+							if i < len(opt) {
+								o = opt[i]
+							}
+							c.Violation(fmt.Sprintf("seq-order|%d|%d", k, i), "", fmt.Sprintf("the same call gives different results depending on the calls made before it: Compile/Parse/Scan of %q with %s options, in a history of %d calls executed forward vs %s (history seed %d, call %d)",
+								src, optNames[o], nCalls, []string{"", "in reverse", "shuffled"}[oi], sseed, i), map[string]any{"seq_seed": sseed, "call": i})
+							return
+						}
+					}
+				}
+				if len(results[0]) > nCalls {
+					c.Violation(fmt.Sprintf("seq-params|%d", k), "", "a sequential history modified the shared parameter map", map[string]any{"seed": sseed})
+					return
+				}
+				c.Count("sequential_history_calls_compared", int64(2*nCalls))
+				c.Decided(true, nil)
+			}(k)
+		}
+		wg.Wait()
+	}
 	c.Decided(true, map[string]any{"distinct_calls": len(calls), "sources": len(sources), "options": optNames, "example_reference": clip(refOf[callID{"compile", 0, 3}], 300)})
 }
 
